@@ -151,6 +151,18 @@ func (f *Frame) val(v ssa.Value) string {
 	if t, ok := f.vals[v]; ok {
 		return t
 	}
+	if p, ok := f.places[v]; ok && p.kind == "field" && len(p.sub) == 0 {
+		// the address of a field of a heap object used as a value (e.g. &x.mutex passed to Lock): a function of the
+		// object reference, so that two evaluations of &x.f agree
+		fn := "faddr_" + p.comp
+		if !f.e.ufSeen[fn] {
+			f.e.ufSeen[fn] = true
+			f.e.ufDecls = append(f.e.ufDecls, fmt.Sprintf("(declare-fun %s (Int) Int)", fn))
+		}
+		t := fmt.Sprintf("(%s %s)", fn, p.ref)
+		f.vals[v] = t
+		return t
+	}
 	if _, ok := f.places[v]; ok {
 		// a derived address escaping as a value: unsupported, give it a stable opaque reference
 		n := f.e.declare(f.name(v), "Int")
@@ -501,6 +513,7 @@ func (f *Frame) convert(in *ssa.Convert) {
 // instr encodes one non-terminator, non-phi instruction.
 func (f *Frame) instr(in ssa.Instruction) {
 	e := f.e
+	f.guardCheck(in)
 	switch in := in.(type) {
 	case *ssa.DebugRef:
 	case *ssa.Alloc:
@@ -1288,4 +1301,188 @@ func (f *Frame) mergeReturns() (reach string, results []string, st *State, ok bo
 		results = append(results, e.define(fmt.Sprintf("%sresult%d", f.prefix, k), e.sortOf(res.At(k).Type()), expr))
 	}
 	return reach, results, st, true
+}
+
+// guardedGlobal: the package-level variable an address or a value syntactically derives from in this function
+// (the variable itself, an element/field of it, or a value loaded from it).
+func guardedGlobal(v ssa.Value) *ssa.Global {
+	for i := 0; i < 16 && v != nil; i++ {
+		switch x := v.(type) {
+		case *ssa.Global:
+			return x
+		case *ssa.FieldAddr:
+			v = x.X
+		case *ssa.IndexAddr:
+			v = x.X
+		case *ssa.UnOp:
+			if x.Op != token.MUL {
+				return nil
+			}
+			v = x.X
+		default:
+			return nil
+		}
+	}
+	return nil
+}
+
+// guardCheck: lock discipline (guarded clauses). A read of a guarded package-level variable (or of a map / slice
+// loaded from it in this function) needs the lock held for reading or writing, a write needs it held for
+// writing. Package initialisers are exempt (they run before any goroutine exists).
+func (f *Frame) guardCheck(in ssa.Instruction) {
+	e := f.e
+	if len(e.P.CS.Guards) == 0 && len(e.P.CS.FieldGuards) == 0 {
+		return
+	}
+	root := f.fn
+	for root.Parent() != nil {
+		root = root.Parent()
+	}
+	if root.Name() == "init" || strings.HasPrefix(root.Name(), "init#") {
+		return
+	}
+	var g *ssa.Global
+	write := false
+	switch x := in.(type) {
+	case *ssa.UnOp:
+		if x.Op == token.MUL {
+			g = guardedGlobal(x.X)
+		}
+	case *ssa.Store:
+		g, write = guardedGlobal(x.Addr), true
+	case *ssa.MapUpdate:
+		g, write = guardedGlobal(x.Map), true
+	case *ssa.Lookup:
+		g = guardedGlobal(x.X)
+	case *ssa.Range:
+		g = guardedGlobal(x.X)
+	case *ssa.Call:
+		if b, ok := x.Call.Value.(*ssa.Builtin); ok && len(x.Call.Args) > 0 {
+			switch b.Name() {
+			case "delete", "clear":
+				g, write = guardedGlobal(x.Call.Args[0]), true
+			case "len":
+				g = guardedGlobal(x.Call.Args[0])
+			}
+		}
+	}
+	if len(e.P.CS.FieldGuards) > 0 {
+		f.fieldGuardCheck(in)
+	}
+	if g == nil || g.Pkg == nil {
+		return
+	}
+	gd := e.P.CS.Guards[g.Pkg.Pkg.Path()+"."+g.Name()]
+	if gd == nil {
+		return
+	}
+	errs := []string{}
+	env := &CEnv{e: e, vars: map[string]CVal{}, st: f.st, old: f.st, pkg: g.Pkg.Pkg, errs: &errs}
+	lock := env.ev(gd.Lock)
+	for _, m := range errs {
+		e.P.contractError("%s: %s", gd.Pos, m)
+	}
+	w := e.load(f.st, &Place{kind: "field", comp: "GH_lock_w", ref: lock.S, typ: types.Typ[types.Bool]})
+	goal := w
+	kind := "w"
+	if !write {
+		r := e.load(f.st, &Place{kind: "field", comp: "GH_lock_r", ref: lock.S, typ: types.Typ[types.Bool]})
+		goal = fmt.Sprintf("(or %s %s)", w, r)
+		kind = "r"
+	}
+	key := g.Name() + "." + kind
+	e.safetyOrd["guard."+key]++
+	o := e.oblige("guard", fmt.Sprintf("%s#guard[%s#%d]", e.unit.Key(), key, e.safetyOrd["guard."+key]), "guard", f.reach, goal, e.P.pos(in.Pos()))
+	o.Output = fmt.Sprintf("%s is accessed (%s) without holding %s", g.Name(), map[string]string{"r": "read", "w": "write"}[kind], gd.Text)
+}
+
+// guardedFieldAddr: the FieldAddr of a guarded struct field an address or value syntactically derives from.
+func (f *Frame) guardedFieldAddr(v ssa.Value) (*ssa.FieldAddr, string) {
+	for i := 0; i < 16 && v != nil; i++ {
+		switch x := v.(type) {
+		case *ssa.FieldAddr:
+			st := x.X.Type().Underlying().(*types.Pointer).Elem()
+			if n, ok := st.(*types.Named); ok && n.Obj().Pkg() != nil {
+				fld := st.Underlying().(*types.Struct).Field(x.Field).Name()
+				if lf, ok := f.e.P.CS.FieldGuards[n.Obj().Pkg().Path()+"."+n.Obj().Name()+"."+fld]; ok {
+					return x, lf
+				}
+			}
+			v = x.X
+		case *ssa.IndexAddr:
+			v = x.X
+		case *ssa.UnOp:
+			if x.Op != token.MUL {
+				return nil, ""
+			}
+			v = x.X
+		default:
+			return nil, ""
+		}
+	}
+	return nil, ""
+}
+
+// fieldGuardCheck: like guardCheck for struct fields guarded by a mutex field of the same object. Accesses to an
+// object allocated in the same function (a constructor filling a fresh object) are exempt.
+func (f *Frame) fieldGuardCheck(in ssa.Instruction) {
+	e := f.e
+	var v ssa.Value
+	write := false
+	switch x := in.(type) {
+	case *ssa.UnOp:
+		if x.Op == token.MUL {
+			v = x.X
+		}
+	case *ssa.Store:
+		v, write = x.Addr, true
+	case *ssa.MapUpdate:
+		v, write = x.Map, true
+	case *ssa.Lookup:
+		v = x.X
+	case *ssa.Range:
+		v = x.X
+	case *ssa.Call:
+		if b, ok := x.Call.Value.(*ssa.Builtin); ok && len(x.Call.Args) > 0 {
+			switch b.Name() {
+			case "delete", "clear":
+				v, write = x.Call.Args[0], true
+			case "len":
+				v = x.Call.Args[0]
+			}
+		}
+	}
+	if v == nil {
+		return
+	}
+	fa, lockField := f.guardedFieldAddr(v)
+	if fa == nil {
+		return
+	}
+	if _, fresh := fa.X.(*ssa.Alloc); fresh {
+		return
+	}
+	p, ok := f.places[fa]
+	if !ok || p.kind != "field" {
+		return
+	}
+	st := fa.X.Type().Underlying().(*types.Pointer).Elem()
+	lockComp := fieldComp(st, lockField)
+	fn := "faddr_" + lockComp
+	if !e.ufSeen[fn] {
+		e.ufSeen[fn] = true
+		e.ufDecls = append(e.ufDecls, fmt.Sprintf("(declare-fun %s (Int) Int)", fn))
+	}
+	lock := fmt.Sprintf("(%s %s)", fn, p.ref)
+	w := e.load(f.st, &Place{kind: "field", comp: "GH_lock_w", ref: lock, typ: types.Typ[types.Bool]})
+	goal, kind := w, "w"
+	if !write {
+		r := e.load(f.st, &Place{kind: "field", comp: "GH_lock_r", ref: lock, typ: types.Typ[types.Bool]})
+		goal, kind = fmt.Sprintf("(or %s %s)", w, r), "r"
+	}
+	fname := st.Underlying().(*types.Struct).Field(fa.Field).Name()
+	key := fname + "." + kind
+	e.safetyOrd["guard."+key]++
+	o := e.oblige("guard", fmt.Sprintf("%s#guard[%s#%d]", e.unit.Key(), key, e.safetyOrd["guard."+key]), "guard", f.reach, goal, e.P.pos(in.Pos()))
+	o.Output = fmt.Sprintf("field %s is accessed (%s) without holding the object's %s", fname, map[string]string{"r": "read", "w": "write"}[kind], lockField)
 }
